@@ -5,7 +5,7 @@ props = [json.loads(l) for l in open('/verif/properties.jsonl')]
 ids = [p['id'] for p in props]
 MC = "model_checking"
 claimed = {
- "C01": (MC, "TLC exhausts the reference matcher (spec/FoxMatch.tla) over every conflict-free table of <=3 routes from a seeded pattern pool x every generated request and checks the soundness theorems; every (table, request, prescribed route/params) vector is replayed on the real router through ServeHTTP, Lookup, Reverse, Iter.Reverse on the router and on read and write transactions.",
+ "C01": (MC, "TLC exhausts the reference matcher (spec/FoxMatch.tla) over every conflict-free table of <=3 routes from a seeded pattern pool x every generated request and checks the soundness theorems; every (table, request, prescribed route/params) vector is replayed on the real router through ServeHTTP, Lookup, Reverse, Iter.Reverse on the router and on read and write transactions. The implementation-shaped walk (spec/FoxLookup.tla over the radix nodes of spec/FoxRadix.tla) is checked by TLC to select what the reference matcher selects; recorded lookups on large random tables are validated by TLC (Obs_Match).",
          "TLC-enumerated matcher vectors replayed on the real router (spec -> code conformance)", "5"),
  "C02": (MC, "TLC explores every history of Handle/HandleRoute/Update/UpdateRoute/Delete over a pool (valid, conflicting and malformed patterns, valid and invalid methods) and of transactions with Truncate; every edge of the state graph is replayed on a fresh router along the BFS path to its source state, the call result (error class, conflict list, returned route) and every read (Len, Has, Route, All, Methods, Routes, Prefix, Reverse, Lookup) compared with the specification.",
          "TLC state graph of the registration API replayed edge by edge on the real router", "5"),
@@ -13,9 +13,9 @@ claimed = {
          "TLC state graph with snapshots replayed on the real router, snapshots re-observed after every later step", "5"),
  "C04": (MC, "TLC checks PublishOnlyAtCommit, WritesArePrivate, AbortLeavesNothing, FailedCallNoEffect and LockDiscipline over all transactions of bounded length with every ending (commit, abort, returned error, panic, settled use, read-only writes); every edge is replayed with Router.Txn, Updates and View and the router and the transaction are read back between steps.",
          "TLC state graph of transactions (all endings) replayed on the real router", "5"),
- "C07": (MC, "In the specification the reply is a function of the registered set; the exhaustive state graph supplies every bounded history into each set, each is replayed on its own router and must answer the probes exactly as prescribed for the set.",
+ "C07": (MC, "In the specification the reply is a function of the registered set; the exhaustive state graph supplies every bounded history into each set, each is replayed on its own router and must answer the probes exactly as prescribed for the set. spec/FoxRadix.tla models the tree surgery of tree.go; TLC checks that the tree is a function of the set (Canonicity) and refines FoxRoutes, and every transition is replayed with the real tree (fox.VerifDump) compared node for node with the model's; on a structural difference routing is compared with a fresh router holding the same set.",
          "all TLC histories into each registered set replayed and probed on the real router", "5"),
- "C08": (MC, "TLC exhausts the trailing-slash rule of FoxMatch (incl. the irrelevance theorem) and the dispatch table of FoxServe over tables x options x methods x requests; vectors are replayed through every lookup entry point and through ServeHTTP (status, resolved Location, query, handler, params).",
+ "C08": (MC, "TLC exhausts the trailing-slash rule of FoxMatch (incl. the irrelevance theorem) and the dispatch table of FoxServe over tables x options x methods x requests; vectors are replayed through every lookup entry point and through ServeHTTP (status, resolved Location, query, handler, params). The node-level walk of spec/FoxLookup.tla (first-found trailing-slash candidate, backtracking) is checked by TLC against the reference; whole replies for percent-encoded paths are recorded and validated by TLC (Obs_Serve).",
          "TLC-enumerated tsr and dispatch vectors replayed on the real router", "5"),
  "C09": (MC, "TLC exhausts the host stage of FoxMatch over tables mixing hostname and path-only patterns x hosts (exact, port, trailing dot, extended, truncated, literals, empty); vectors replayed through every entry point.",
          "TLC-enumerated hostname vectors replayed on the real router", "5"),
